@@ -331,6 +331,8 @@ def run(rep, build, tier, seed):
     from collections import Counter
     used = Counter(l.split("=")[0] for c in cases for l in (c.cfg_text or "").split("\n") if l.startswith("mod_"))
     rep.cov["input_distribution"] = {"cases": len(cases), "exit_status": {str(k): v for k, v in stats["rc"].items()}, "mod_options_drawn": dict(used.most_common(60))}
+    from .. import listops as _lo
+    rep.cov["input_distribution"]["list_calls_judged_against_the_contract"] = dict(_lo.CALL_STATS)
     rep.sample({"config": cases[1].cfg_text, "input_head": cases[1].data[:300].decode("latin1")})
     return rc.finish(rep, build, "C04", corr, "correspondence Model/Render.v <-> output.cpp (emitted code points)",
                      "Theorems of Properties_C04.v re-checked by make; %d runs judged by the extracted checker c04_ok on LexC token streams (tokens named by the enabled "
